@@ -28,6 +28,10 @@ type Peer struct {
 	OnRecv func(r RecvMsg)
 	rest   []byte
 	CL     *ConnLog
+	// Bytewise feeds one byte at a time and settles after each (set per connection once framing may
+	// be damaged: a single feed could otherwise complete several frames at once, i.e. make more than
+	// one source ready for the session's select, whose choice among ready cases is random).
+	Bytewise bool
 }
 
 type RecvMsg struct {
@@ -55,6 +59,7 @@ func (p *Peer) Connected() bool { return p.EP != nil && !p.EP.IsClosed() }
 // for an initiator the peer waits (advancing time up to maxWait) for the engine's dial.
 func (p *Peer) Connect(maxWait time.Duration) bool {
 	p.rest = nil
+	p.Bytewise = false
 	if !p.eng.Cfg.Initiator {
 		ep, err := p.W.DriverDial(p.eng.Cfg.Port)
 		if err != nil {
@@ -241,7 +246,15 @@ func (p *Peer) SendRaw(b []byte, o MsgOpt) []RecvMsg {
 	s := SentMsg{Msg: m, Conn: p.Conn, At: time.Now(), Opt: o}
 	s.N = p.env.Rec(fmt.Sprintf("peer>:%d", p.Conn), "peer>", string(b), true)
 	p.Sent = append(p.Sent, s)
-	if len(p.ChunkPlan) == 0 {
+	if p.Bytewise {
+		for i := range b {
+			if p.EP.IsClosed() {
+				break
+			}
+			p.EP.Feed(b[i : i+1])
+			p.env.Settle()
+		}
+	} else if len(p.ChunkPlan) == 0 {
 		p.EP.Feed(b)
 	} else {
 		i := 0
